@@ -152,6 +152,11 @@ def main():
             if r["status"] == "undecided":
                 undecided.append(o)
             if r["status"] != "fail":
+                if r["status"] == "ok":
+                    # a replay file left by an earlier failing run of this obligation is stale now
+                    stale = os.path.join(REPLAY_DIR, "%s-%s.json" % (prop, re.sub(r"[^\w.-]", "_", o.id)))
+                    if os.path.exists(stale):
+                        os.remove(stale)
                 continue
             descs = [c["description"] for c in r["failed"]] or ["(verifier reported failure)"]
             matched = [finding_for(findings, prop, o.id, d) for d in descs]
